@@ -10,8 +10,10 @@ CHECKS = {
 NOT_YET = {}
 
 def load():
-    with open(os.path.join(HERE, "manifest_table.json")) as f:
-        return json.load(f)
+    import sys
+    sys.path.insert(0, HERE)
+    import manifest_table as mt
+    return dict(checks=mt.CHECKS, not_applicable=mt.NOT_APPLICABLE, notes=mt.NOTES)
 
 def main():
     t = load()
